@@ -818,3 +818,101 @@ def rule_range(ctx):
 
 
 RULES.insert(7, ("C08.RANGE", "quick", rule_range))
+
+
+# ----------------------------------------------------------------- HELLO (meaning of the sanity checks)
+def rule_hello_checks(ctx):
+    """HELLO: what the ClientHello sanity checks of the server mean.  Each row binds fields of the
+    received hello to boundary values (empty lists, missing extensions, inconsistent lists) and states
+    when _serverGetClientHello must abort with an alert; the function's CFG is walked for every
+    assignment (condeval.outcomes), nothing is executed."""
+    from ..condeval import Rec
+    from .common import spec_rows
+    R = "C08.HELLO"
+    T13 = {"ver_ext": [True], "ver_ext.versions": [((3, 4),)]}
+    ids = [(), (Rec(identity=b"i"),), (Rec(identity=b""),), (Rec(identity=b"i"), Rec(identity=b"j"))]
+    shares = [None, (), (Rec(group=23),), (Rec(group=24), Rec(group=23)), (Rec(group=23), Rec(group=24)),
+              (Rec(group=23), Rec(group=23)), (Rec(group=29),)]
+    F = frozenset({1, 26})
+
+    def d(*ds):
+        out = {}
+        for x in ds:
+            out.update(x)
+        return out
+    rows = [
+        dict(what="cipher_suites and compression_methods non-empty, null compression offered",
+             dom={"clientHello.cipher_suites": [(), (47,)], "clientHello.compression_methods": [(), (0,), (1,), (1, 0)]},
+             abort=lambda e: not e["clientHello.cipher_suites"] or 0 not in e["clientHello.compression_methods"]),
+        dict(what="supported_versions not empty",
+             dom={"ext": [True], "ext.versions": [(), ((3, 3),)], "ext.sigalgs": [((4, 1),)]},
+             abort=lambda e: not e["ext.versions"]),
+        dict(what="signature_algorithms not empty in a TLS 1.2 hello",
+             dom={"clientHello.client_version": [(3, 2), (3, 3)], "ext": [None, True], "ext.sigalgs": [(), ((4, 1),)],
+                  "ext.versions": [((3, 3),)]},
+             abort=lambda e: e["clientHello.client_version"] >= (3, 3) and bool(e["ext"]) and not e["ext.sigalgs"]),
+        dict(what="ALPN list and every name in it non-empty",
+             dom={"alpnExt": [True], "alpnExt.protocol_names": [(), (b"h2",), (b"",), (b"h2", b""), (b"h2", b"http/1.1")]},
+             abort=lambda e: not e["alpnExt.protocol_names"] or any(not x for x in e["alpnExt.protocol_names"])),
+        dict(what="SNI payload and name list non-empty",
+             dom={"sniExt": [True], "sniExt.extData": [b"", b"x"], "sniExt.serverNames": [(), ("n",)],
+                  "sniExt.hostNames": [()]},
+             abort=lambda e: not e["sniExt.extData"] or not e["sniExt.serverNames"]),
+        dict(what="SNI carries exactly one, non-empty host name",
+             dom={"sniExt": [True], "sniExt.extData": [b"x"], "sniExt.serverNames": [("n",)],
+                  "sniExt.hostNames": [(b"a",), (b"a", b"b"), (b"",)]},
+             abort=lambda e: len(e["sniExt.hostNames"]) > 1 or not e["sniExt.hostNames"][0]),
+        dict(what="extended_master_secret has no payload",
+             dom={"emsExt": [True, None], "emsExt.extData": [b"", b"x"]},
+             abort=lambda e: bool(e["emsExt"]) and bool(e["emsExt.extData"])),
+        dict(what="ec_point_formats non-empty and offers uncompressed (TLS <= 1.2)",
+             dom={"real_version": [(3, 3)], "ecExt": [True], "ecExt.formats": [(), (0,), (1,), (1, 0)],
+                  "ECPointFormat.uncompressed": [0]},
+             abort=lambda e: 0 not in e["ecExt.formats"]),
+        dict(what="post_handshake_auth has no payload",
+             dom=d(T13, {"pha": [True], "pha.extData": [b"", b"x"]}), abort=lambda e: bool(e["pha.extData"])),
+        dict(what="delegated_credential lists at least one algorithm",
+             dom=d(T13, {"dc_ext": [True], "dc_ext.sigalgs": [(), ((4, 3),)]}), abort=lambda e: not e["dc_ext.sigalgs"]),
+        dict(what="psk_key_exchange_modes not empty",
+             dom=d(T13, {"psk_modes": [True], "psk_modes.modes": [(), (1,)]}), abort=lambda e: not e["psk_modes.modes"]),
+        dict(what="pre_shared_key: identities and binders non-empty, pairwise, none empty, last extension, modes present",
+             dom=d(T13, {"psk": [True], "psk.identities": ids, "psk.binders": [(), (b"b",), (b"",), (b"b", b"c")],
+                         "clientHello.extensions[-1]": [True, "another"], "psk_modes": [True, None],
+                         "psk_modes.modes": [(1,)]}),
+             abort=lambda e: not e["psk.identities"] or not e["psk.binders"]
+             or len(e["psk.identities"]) != len(e["psk.binders"])
+             or any(not i.fields["identity"] for i in e["psk.identities"]) or any(not b for b in e["psk.binders"])
+             or e["clientHello.extensions[-1]"] is not True or not e["psk_modes"]),
+        dict(what="(EC)DHE: supported_groups and key_share present, consistent, unique and in the advertised order",
+             dom=d(T13, {"psk": [None], "sig_algs": [True], "sup_groups": [True, None], "key_share": [True, None],
+                         "sup_groups.groups": [(), (23, 24), (24, 23, 29), (26, 23)], "key_share.client_shares": shares,
+                         "TLS_1_3_FORBIDDEN_GROUPS": [F]}),
+             abort=lambda e: not e["sup_groups"] or not e["key_share"] or not e["sup_groups.groups"]
+             or e["key_share.client_shares"] is None or bool(F & set(e["sup_groups.groups"]))
+             or any(s_.fields["group"] not in e["sup_groups.groups"] for s_ in e["key_share.client_shares"])
+             or len({s_.fields["group"] for s_ in e["key_share.client_shares"]}) != len(e["key_share.client_shares"])
+             or [s_.fields["group"] for s_ in e["key_share.client_shares"]]
+             != [g_ for g_ in e["sup_groups.groups"] if g_ in {s_.fields["group"] for s_ in e["key_share.client_shares"]}]),
+        dict(what="groups TLS 1.3 forbids are tolerated only when TLS 1.2 is offered too",
+             dom={"ver_ext": [True], "ver_ext.versions": [((3, 4),), ((3, 4), (3, 3))], "psk": [None], "sig_algs": [True],
+                  "sup_groups": [True], "key_share": [True], "sup_groups.groups": [(26, 23), (23,)],
+                  "key_share.client_shares": [(Rec(group=23),)], "TLS_1_3_FORBIDDEN_GROUPS": [F]},
+             abort=lambda e: 26 in e["sup_groups.groups"] and (3, 3) not in e["ver_ext.versions"]),
+        dict(what="a TLS 1.3 hello needs a usable key exchange (PSK, or groups + key share + signature_algorithms)",
+             dom=d(T13, {"psk": [None], "psk_modes": [None], "sig_algs": [True, None], "sup_groups": [True], "key_share": [True],
+                         "sup_groups.groups": [(23,)], "key_share.client_shares": [(Rec(group=23),)],
+                         "TLS_1_3_FORBIDDEN_GROUPS": [F]}),
+             abort=lambda e: not e["sig_algs"]),
+        dict(what="early_data has no payload and comes with a PSK",
+             dom=d(T13, {"early_data": [True], "early_data.extData": [b"", b"x"], "psk": [True, None],
+                         "psk_modes": [True], "psk_modes.modes": [(1,)], "sig_algs": [True]}),
+             abort=lambda e: bool(e["early_data.extData"]) or not e["psk"]),
+        dict(what="supported_versions must contain a version the settings enable",
+             dom={"ver_ext": [True], "ver_ext.versions": [((3, 3),), ((3, 5),), ((3, 5), (3, 2))],
+                  "settings.versions": [((3, 3), (3, 2)), ((3, 3),)], "clientHello.cipher_suites": [(47,)]},
+             abort=lambda e: not set(e["ver_ext.versions"]) & set(e["settings.versions"])),
+    ]
+    spec_rows(ctx, R, TLSCONN + "_serverGetClientHello", rows)
+
+
+RULES.insert(8, ("C08.HELLO", "quick", rule_hello_checks))
